@@ -57,9 +57,13 @@ def run_lines(exe, args, lines, jobs=8, timeout=1800):
     jobs = max(1, min(jobs, (n + 49) // 50))
     size = (n + jobs - 1) // jobs
     chunks = [lines[i:i + size] for i in range(0, n, size)]
-    def work(chunk, tmo=timeout):
+    def budget(k):
+        # a case takes milliseconds; a process that blocks outside the instrumented primitives (std::sync::Once, a
+        # channel, a real sleep) must not stall the check for half an hour: time allowance proportional to the chunk
+        return min(timeout, max(15, 0.25 * k))
+    def work(chunk, tmo=None):
         try:
-            out = _run_chunk(exe, args, chunk, tmo)
+            out = _run_chunk(exe, args, chunk, budget(len(chunk)) if tmo is None else tmo)
         except subprocess.TimeoutExpired:
             out = []
         if len(out) == len(chunk):
@@ -68,7 +72,7 @@ def run_lines(exe, args, lines, jobs=8, timeout=1800):
             cid = chunk[0].split()[1] if len(chunk[0].split()) > 1 else "?"
             return ["%s |  ; S= L= O= st=crash" % cid]
         mid = len(chunk) // 2
-        return work(chunk[:mid], 120) + work(chunk[mid:], 120)
+        return work(chunk[:mid]) + work(chunk[mid:])
     with cf.ThreadPoolExecutor(max_workers=jobs) as ex:
         res = list(ex.map(work, chunks))
     return [l for r in res for l in r]
